@@ -7,7 +7,7 @@
    ALL operand schemas and ALL values; [wf]-preservation puts every result inside C02's
    theorem, which gives the verdict forms at the end. *)
 Require Import D42.Prelude D42.Value D42.Regex D42.Schema D42.Validate D42.Conforms D42.Combinators.
-Require Import D42P.CombinatorsSpec.
+Require Import D42P.CombinatorsSpec D42P.AddAssoc.
 
 (* ---------------------------------------------------------------- a | b ---- *)
 (* a | b never fails on schemas; the result accepts exactly the union.  No hypothesis on
@@ -106,6 +106,28 @@ Theorem add_characterisation :
            has_dkey k (entries_of k1) = true \/ has_dkey k (entries_of k2) = true).
 Proof. exact add_characterisation_lemma. Qed.
 Print Assumptions add_characterisation.
+
+(* `+` is associative AS SCHEMAS: the same entries with the same optional flags in the same
+   order (Python's {**{**a, **b}, **c} and {**a, **{**b, **c}} agree on insertion order too),
+   hence the same printed form and the same verdicts.  Proved on the fold that models dict
+   assignment, for entry lists of any length (proofs/AddAssoc.v). *)
+Theorem add_assoc :
+  forall a b c ab bc, wf a = true -> wf b = true -> wf c = true ->
+    dict_add a b = Ok ab -> dict_add b c = Ok bc ->
+    dict_add ab c = dict_add a bc.
+Proof. exact add_assoc_lemma. Qed.
+Print Assumptions add_assoc.
+
+(* non-vacuity: three overlapping operands, the last one relaxed; both groupings succeed *)
+Example add_assoc_example :
+  let a := SDict (Some [ (KStr [97%N], Some SNone, false); (KStr [98%N], Some (SBool None), true) ]) in
+  let b := SDict (Some [ (KStr [99%N], Some SNone, false); (KStr [97%N], Some (SBool None), true) ]) in
+  let c := SDict (Some [ (KStr [98%N], Some SNone, false); (KEll, None, false) ]) in
+  wf a && wf b && wf c = true /\
+  match dict_add a b, dict_add b c with
+  | Ok ab, Ok bc => is_ok (dict_add ab c) && is_ok (dict_add a bc)
+  | _, _ => false end = true.
+Proof. vm_compute. auto. Qed.
 
 Theorem add_relaxed :
   forall k1 k2,
